@@ -36,7 +36,7 @@ Theorem C09_upstream_stream_f_eq : forall k pp line segs fin,
 Proof. exact upstream_stream_f_eq. Qed.
 Print Assumptions C09_upstream_stream_f_eq.
 
-(* PROXY protocol v1 line: shape, and fields without a space can be read back. *)
+(* (mechanism lemma, definitional: restates proxy_line; the content is the injectivity below) PROXY protocol v1 line: shape, and fields without a space can be read back. *)
 Theorem C09_proxy_line_format : forall is4 ca sa cp sp,
   proxy_line is4 ca sa cp sp =
     bs "PROXY "%string ++ (if is4 then bs "TCP4"%string else bs "TCP6"%string) ++ bs " "%string ++ ca ++ bs " "%string ++ sa
@@ -203,6 +203,44 @@ Theorem C09_tunnel_half_close_nonvacuous :
 Proof. exact tunnel_half_close_nonvacuous. Qed.
 Print Assumptions C09_tunnel_half_close_nonvacuous.
 
+(* Liveness.  Both sides end their streams and both connections can be closed for writing: every
+   schedule which lets the client direction run more than [length c] times and the upstream
+   direction more than [length u] times ends the tunnel with every byte delivered both ways
+   (one step per chunk and one for the EOF) ... *)
+Theorem C09_tunnel_fair_schedule_ends : forall sched c u,
+  (length c < nC sched)%nat -> (length u < nU sched)%nat ->
+  let s := hrun sched (hinit c true u true true true) in
+  h_ended s = true /\ h_c_done s = concat c /\ h_u_done s = concat u.
+Proof. exact tunnel_fair_schedule_ends. Qed.
+Print Assumptions C09_tunnel_fair_schedule_ends.
+
+(* ... and with an upstream that never closes the tunnel never ends, and every schedule with at
+   least [length u] upstream steps has delivered the whole reply to a client that may long have
+   half-closed. *)
+Theorem C09_half_close_reply_delivered_live : forall sched c ceof u ci,
+  (length u <= nU sched)%nat ->
+  let s := hrun sched (hinit c ceof u false true ci) in
+  h_ended s = false /\ h_u_done s = concat u.
+Proof. exact half_close_reply_delivered_live. Qed.
+Print Assumptions C09_half_close_reply_delivered_live.
+
+(* F-C09-7 (OPEN).  The accepted connection cannot be closed for writing only - the Conn of
+   github.com/armon/go-proxyproto, listeners with pxyproto=true - and the upstream half-closes
+   while the client still has bytes to send: tunnel.go's closeWrite reports io.EOF, the tunnel
+   ends at once, the rest of the client's stream is not delivered although the upstream still
+   reads.  Region: [region_upstream_half_close] (syntactic on the scenario).  Outside it:
+   C09_scenario_meets_spec. *)
+Theorem C09_upstream_half_close_no_closewrite_refuted :
+  (let s := hrun [U2C; U2C; C2U] (hinit [[1; 2]%N; [3]%N] true [[7; 8]%N] true true false) in
+   h_ended s = true /\ h_u_fin s = Some false /\ h_u_done s = [7; 8]%N /\ h_c_done s = [] /\ h_c_done s <> [1; 2; 3]%N) /\
+  (let e := tunnel_expect [1; 2; 3]%N [7; 8]%N false false false CHalf UAtConnect UHalf in
+   region_upstream_half_close [1; 2; 3]%N false UAtConnect UHalf = true /\ e_up_lo e = 0%N /\ e_ends e = Some true /\
+   within [] (e_up e) (e_up_lo e) (nlen' (e_up e)) = true /\
+   spec_core [1; 2; 3]%N [7; 8]%N false CHalf UAtConnect UHalf [] [7; 8]%N = false /\
+   spec_core [1; 2; 3]%N [7; 8]%N false CHalf UAtConnect UHalf [1; 2; 3]%N [7; 8]%N = true).
+Proof. exact upstream_half_close_no_closewrite_refuted. Qed.
+Print Assumptions C09_upstream_half_close_no_closewrite_refuted.
+
 (* F-C09-2, repaired by e0f2d05.  The unrepaired tunnel ("the first finished direction ends the
    tunnel"): a schedule exists in which the client direction sees EOF first and the reply never
    arrives ... *)
@@ -230,8 +268,8 @@ Print Assumptions C09_half_close_reply_refuted_now_delivered.
 Theorem C09_half_close_scenario_delivered :
   exists e, scenario_expect KTcp false [] [[1; 2; 3]%N] 0 false false CHalf UOnEOF [7; 8]%N 0 0 UClose = Ok e /\
     e_up e = [1; 2; 3]%N /\ e_up_lo e = 3%N /\ e_cl e = [7; 8]%N /\ e_cl_lo e = 2%N /\ e_ends e = Some true /\
-    spec_b KTcp false [] [1; 2; 3]%N 0 false false CHalf UOnEOF [7; 8]%N UClose [1; 2; 3]%N [7; 8]%N true false = true /\
-    spec_b KTcp false [] [1; 2; 3]%N 0 false false CHalf UOnEOF [7; 8]%N UClose [1; 2; 3]%N [] true false = false.
+    spec_b KTcp false [] [1; 2; 3]%N false CHalf UOnEOF [7; 8]%N UClose [1; 2; 3]%N [7; 8]%N = true /\
+    spec_b KTcp false [] [1; 2; 3]%N false CHalf UOnEOF [7; 8]%N UClose [1; 2; 3]%N [] = false.
 Proof. exact half_close_scenario_delivered. Qed.
 Print Assumptions C09_half_close_scenario_delivered.
 
@@ -255,6 +293,23 @@ Theorem C09_upstream_half_close_refuted :
    e_cl_eof e = Some true /\ e_ends e = Some true).
 Proof. exact upstream_half_close_refuted. Qed.
 Print Assumptions C09_upstream_half_close_refuted.
+
+(* websocket, bytes the client sends together with its upgrade request (fix commit 66d5585: the
+   hijacked reader's buffered bytes are copied to the upstream after the request): for every
+   split of the client's stream into what the http server had buffered and the rest, in any
+   segmentation, the upstream receives the whole stream in order.  F-C09-6: the unrepaired handler
+   discarded the reader and lost exactly the buffered bytes. *)
+Theorem C09_ws_early_bytes_delivered : forall buffered rest,
+  ws_client_stream buffered rest = Ok (buffered ++ concat rest).
+Proof. exact ws_early_bytes_delivered. Qed.
+Print Assumptions C09_ws_early_bytes_delivered.
+
+Theorem C09_ws_early_bytes_refuted : forall buffered rest, buffered <> [] ->
+  ws_client_stream_unrepaired buffered rest = Ok (concat rest) /\
+  ws_client_stream_unrepaired buffered rest <> Ok (buffered ++ concat rest) /\
+  ws_client_stream buffered rest = Ok (buffered ++ concat rest).
+Proof. exact ws_early_bytes_refuted. Qed.
+Print Assumptions C09_ws_early_bytes_refuted.
 
 (* websocket (fix commit 9c9f13b: io.ReadAtLeast(out, b, 12)): however an upstream reply that
    starts with "HTTP/1.1 101" is cut into segments, the handshake read succeeds (never out of
@@ -295,7 +350,7 @@ Theorem C09_ws_split_101_refuted :
   ws_upgraded_unrepaired (firstn 10 wit_reply) = false /\
   exists e, scenario_expect KWs false [] [[1; 2]%N] 0 true false CStay UAtConnect wit_reply 10 (nlen' wit_reply) UStay = Ok e /\
     e_cl e = wit_reply /\ e_cl_lo e = nlen' wit_reply /\ e_up e = [1; 2]%N /\ e_up_lo e = 2%N /\
-    spec_b KWs false [] [1; 2]%N 0 true false CStay UAtConnect wit_reply UStay (e_up e) (e_cl e) false false = true.
+    spec_b KWs false [] [1; 2]%N false CStay UAtConnect wit_reply UStay (e_up e) (e_cl e) = true.
 Proof. exact ws_split_101_refuted. Qed.
 Print Assumptions C09_ws_split_101_refuted.
 
@@ -317,31 +372,44 @@ Print Assumptions C09_ws_short_reply_nothing_forwarded.
    timing decides how much of the client's stream is cut; kept out of the generated domain) and
    [ws_head_first] (on the websocket path the harness's upstream may send only the first [whead]
    bytes before it waits for its trigger; they must contain the status line). *)
-Theorem C09_tunnel_expect_meets_spec : forall up reply cw_in cerr cwait ce ut ue o_up o_cl o_ended o_eof,
+Theorem C09_tunnel_expect_meets_spec : forall up reply cw_in cerr cwait ce ut ue o_up o_cl,
   let e := tunnel_expect up reply cw_in cerr cwait ce ut ue in
   region_upstream_half_close up cw_in ut ue = false ->
   within o_up (e_up e) (e_up_lo e) (nlen' (e_up e)) = true ->
   is_prefix o_cl (e_cl e) = true -> (e_cl_lo e <= nlen' o_cl)%N ->
-  ends_agree e o_ended = true -> eof_agree e o_eof = true ->
-  spec_core up reply cw_in cerr cwait ce ut ue o_up o_cl o_ended o_eof = true.
+  spec_core up reply cwait ce ut ue o_up o_cl = true.
 Proof. exact tunnel_expect_meets_spec. Qed.
 Print Assumptions C09_tunnel_expect_meets_spec.
 
-Theorem C09_scenario_meets_spec : forall k pp line segs fin cw_in cwait ce ut reply rseg1 whead ue e o_up o_cl o_ended o_eof,
+Theorem C09_scenario_meets_spec : forall k pp line segs fin cw_in cwait ce ut reply rseg1 whead ue e o_up o_cl,
   scenario_expect k pp line segs fin cw_in cwait ce ut reply rseg1 whead ue = Ok e ->
   region_upstream_half_close (spec_upstream k pp line (concat segs)) cw_in ut ue = false ->
   ws_head_first k ut whead = true ->
   within o_up (e_up e) (e_up_lo e) (nlen' (e_up e)) = true ->
   within o_cl (e_cl e) (e_cl_lo e) (e_cl_hi e) = true ->
-  ends_agree e o_ended = true -> eof_agree e o_eof = true ->
-  spec_b k pp line (concat segs) fin cw_in cwait ce ut reply ue o_up o_cl o_ended o_eof = true.
+  spec_b k pp line (concat segs) cwait ce ut reply ue o_up o_cl = true.
 Proof. exact scenario_meets_spec. Qed.
 Print Assumptions C09_scenario_meets_spec.
 
 Theorem C09_scenario_meets_spec_nonvacuous :
   exists e, scenario_expect KSni true [80; 32]%N [wit_hello ++ [1; 2]%N; [3]%N] 1 false false CHalf UOnEOF [7; 8]%N 0 0 UHalf = Ok e /\
     within ([80; 32]%N ++ wit_hello ++ [1; 2; 3]%N) (e_up e) (e_up_lo e) (nlen' (e_up e)) = true /\
-    within [7; 8]%N (e_cl e) (e_cl_lo e) (e_cl_hi e) = true /\ ends_agree e true = true /\ eof_agree e false = true /\
+    within [7; 8]%N (e_cl e) (e_cl_lo e) (e_cl_hi e) = true /\
     region_upstream_half_close (spec_upstream KSni true [80; 32]%N (wit_hello ++ [1; 2; 3]%N)) false UOnEOF UHalf = false.
 Proof. exact scenario_meets_spec_nonvacuous. Qed.
 Print Assumptions C09_scenario_meets_spec_nonvacuous.
+
+(* What the model itself guarantees beyond the property's statement (compared in the
+   correspondence, not part of spec_b): whenever [spec_req_ends] the tunnel returns by itself,
+   whenever [spec_req_eof] the client sees EOF after the upstream's data. *)
+Theorem C09_model_tunnel_ends : forall up reply cw_in cerr cwait ce ut ue,
+  spec_req_ends (nlen' up) (nlen' reply) cwait ce ut = true ->
+  e_ends (tunnel_expect up reply cw_in cerr cwait ce ut ue) = Some true.
+Proof. exact expect_ends. Qed.
+Print Assumptions C09_model_tunnel_ends.
+
+Theorem C09_model_client_sees_eof : forall up reply cw_in cerr cwait ce ut ue,
+  spec_req_eof (nlen' up) (nlen' reply) cw_in cerr cwait ce ut ue = true ->
+  e_cl_eof (tunnel_expect up reply cw_in cerr cwait ce ut ue) = Some true.
+Proof. exact expect_eof. Qed.
+Print Assumptions C09_model_client_sees_eof.
